@@ -656,4 +656,37 @@ theorem checkEntries_length (name : String) (fi mi : List (Nat × Nat)) :
                 simp only [List.length_drop, List.length_take] at hrec h1
                 omega
 
+
+/-- a plain digit string is read as that integer with exponent 0 -/
+theorem parseDec_digits (cs : List Char) (hne : cs ≠ []) (hd : ∀ c ∈ cs, c.isDigit = true) :
+    parseDec (String.ofList cs) = (digitsVal cs).map (fun m => ⟨false, m, 0⟩) := by
+  have htw : cs.takeWhile Char.isDigit = cs := by
+    have := List.takeWhile_append_of_pos (p := Char.isDigit) (l₁ := cs) (l₂ := []) hd
+    simpa using this
+  have hdw : cs.dropWhile Char.isDigit = [] := by
+    have := List.dropWhile_append_of_pos (p := Char.isDigit) (l₁ := cs) (l₂ := []) hd
+    simpa using this
+  obtain ⟨c, r, rfl⟩ := List.exists_cons_of_ne_nil hne
+  have hc : c ≠ '-' := by
+    intro h; have := hd c (by simp); rw [h] at this; exact absurd this (by decide)
+  unfold parseDec
+  simp only [String.toList_ofList]
+  split
+  · rename_i r' heq
+    simp only [List.cons.injEq] at heq
+    exact absurd heq.1 hc
+  · rename_i hnm
+    simp [htw, hdw]
+    cases digitsVal (c :: r) <;> rfl
+
+
+/-- end to end: for a double `≥ 2^52`, any digit string whose value is the double's exact integer
+    value is accepted by the entry comparison as that double -/
+theorem valueIs_exact_int_text (cs : List Char) (n t : Nat) (hne : cs ≠ [])
+    (hd : ∀ c ∈ cs, c.isDigit = true) (hv : digitsVal cs = some ((2 ^ 52 + n % 2 ^ 52) * 2 ^ t))
+    (ht : n / 2 ^ 52 = 1075 + t) (hf : n / 2 ^ 52 < 2047) :
+    valueIs (.num (String.ofList cs)) (.f64 (n : Int)) = true := by
+  simp only [valueIs, parseDec_digits cs hne hd, hv, Option.map_some]
+  exact decIsKey_exact_int n t ht hf
+
 end Sod.Codec
